@@ -31,7 +31,7 @@ def one(sid):
 
 
 missed = 0
-with cf.ThreadPoolExecutor(8) as ex:
+with cf.ThreadPoolExecutor(14) as ex:
     for sid, fired in ex.map(one, ids):
         prop = sid.split("-")[0]
         if fired is None:
